@@ -1,5 +1,6 @@
 import NurbsVerif.Lemmas.SpanRDers
 import NurbsVerif.Lemmas.HodographTangent
+import NurbsVerif.Lemmas.RatTangent
 
 /-!
   `operations.tangent` / `operations.normal` (non-rational, `normalize=False`) through the REPAIRED linear search: the
@@ -59,5 +60,23 @@ theorem normalSurfaceR_true (pu pv : ℕ) (Uu Uv : ℕ → K) (su sv : ℕ) (P :
   obtain ⟨hsv, hpv, hkv⟩ := findSpanLinearR_ok hUv v hv1 hv2
   exact normalSurface_true pu pv Uu Uv su sv P _ _ u v hpu hpv hku hkv hlen hP hUu.mono hUv.mono
     hsu.nonempty hsv.nonempty Su Sv hSu hSv
+
+/-- `operations.tangent` of a RATIONAL curve through the repaired search (op `tancr 1 …`): positive weight polynomial,
+    `C = A / w` and the quotient rule `T = (A'·w − A·w') / w²` for the span polynomials of the span found -/
+theorem tangentCurveR_rational_quotient (p d : ℕ) (U : ℕ → K) (Pw : List (List K)) (hU : DomOk p U Pw.length)
+    (hP : NetOk (d+1) Pw) (hwt : ∀ i, i < Pw.length → 0 < (ptsGet Pw i).getD d 0) (u : K)
+    (h1 : U p ≤ u) (h2 : u ≤ U Pw.length) (j : ℕ) (hj : j < d)
+    (w A : K[X]) (hw : w = spanPoly p U Pw (findSpanLinearR p U Pw.length u) d)
+    (hA : A = spanPoly p U Pw (findSpanLinearR p U Pw.length u) j) :
+    0 < eval u w ∧
+    (tangentCurve (ratCurveDers (curveDersA32R p U Pw u 1))).1.getD j 0 = eval u A / eval u w ∧
+    (tangentCurve (ratCurveDers (curveDersA32R p U Pw u 1))).2.getD j 0
+      = (eval u (derivative A) * eval u w - eval u A * eval u (derivative w)) / eval u w ^ 2 := by
+  subst hw hA
+  obtain ⟨hpos, k0⟩ := ratCurveDersA32R_true p d U Pw hU hP hwt u h1 h2 1 0 j (by omega) hj
+  obtain ⟨_, k1⟩ := ratCurveDersA32R_true p d U Pw hU hP hwt u h1 h2 1 1 j (by omega) hj
+  simp only [Finset.sum_range_succ, Finset.sum_range_zero, zero_add, Nat.choose_self, Nat.choose_zero_right,
+    Nat.cast_one, one_mul, Function.iterate_zero, id_eq, Function.iterate_one, Nat.sub_zero, Nat.sub_self] at k0 k1
+  exact ⟨hpos, quotient_rule_of_leibniz _ _ _ _ _ _ (ne_of_gt hpos) k0 k1⟩
 
 end Geomdl
